@@ -23,6 +23,28 @@ type MTx struct {
 	From  int    `json:"from,omitempty"`  // 0 = OtherAddr, n>0 = Sender(n)
 	Value string `json:"value,omitempty"` // deposits: value sent
 	Coin  int    `json:"coin,omitempty"`  // deposits / batches: coin id
+	// transactions the multisig really sent (loop checks): the items of a multisend, the members of an edit-multisig
+	Items   []MItem   `json:"items,omitempty"`
+	Members []MMember `json:"members,omitempty"`
+}
+
+type MItem struct {
+	To    string `json:"to"` // Mx...
+	Coin  int    `json:"coin"`
+	Value string `json:"value"`
+}
+
+type MMember struct {
+	Addr   string `json:"addr"` // Mx...
+	Weight uint64 `json:"weight"`
+}
+
+// Msig is the state of the bridge's multisig account on the scripted chain.
+type Msig struct {
+	Addresses []string
+	Weights   []uint64
+	Threshold uint64
+	TxCount   uint64 // transactions sent so far; the next one must carry nonce TxCount+1
 }
 
 type MBlock struct {
@@ -62,6 +84,10 @@ type Node struct {
 	Mu     sync.Mutex
 	Blocks []MBlock // heights 1..len
 	Latest uint64
+	// optional: the multisig account (served by /address/<multisig>) and the judge of submitted transactions
+	// (called with Mu held; returns the code and log of the send_transaction response)
+	Msig   *Msig
+	OnSend func(tx string) (code uint64, log string)
 }
 
 func (n *Node) SetLatest(h uint64) {
@@ -93,12 +119,25 @@ func (n *Node) txJSON(h uint64, i int, t MTx) map[string]interface{} {
 		if t.Kind == "batch" {
 			tx["from"] = Multisig
 		}
-		tx["data"] = map[string]interface{}{"@type": "type.googleapis.com/api_pb.MultiSendData", "list": []interface{}{
-			map[string]interface{}{"coin": coin, "to": OtherAddr, "value": "5"}}}
+		list := []interface{}{map[string]interface{}{"coin": coin, "to": OtherAddr, "value": "5"}}
+		if len(t.Items) > 0 {
+			list = nil
+			for _, it := range t.Items {
+				list = append(list, map[string]interface{}{"coin": map[string]interface{}{"id": fmt.Sprint(it.Coin), "symbol": "HUB"}, "to": it.To, "value": it.Value})
+			}
+		}
+		tx["data"] = map[string]interface{}{"@type": "type.googleapis.com/api_pb.MultiSendData", "list": list}
 	case "valset", "valset-bad":
 		tx["type"] = "18"
 		tx["from"] = Multisig
-		tx["data"] = map[string]interface{}{"@type": "type.googleapis.com/api_pb.EditMultisigData", "threshold": "667", "weights": []string{"500", "500"}, "addresses": []string{OtherAddr, Multisig}}
+		weights, addrs := []string{"500", "500"}, []string{OtherAddr, Multisig}
+		if len(t.Members) > 0 {
+			weights, addrs = nil, nil
+			for _, m := range t.Members {
+				weights, addrs = append(weights, fmt.Sprint(m.Weight)), append(addrs, m.Addr)
+			}
+		}
+		tx["data"] = map[string]interface{}{"@type": "type.googleapis.com/api_pb.EditMultisigData", "threshold": "667", "weights": weights, "addresses": addrs}
 		tx["payload"] = base64.StdEncoding.EncodeToString([]byte(t.Payload))
 	default:
 		tx["type"] = "2"
@@ -130,6 +169,24 @@ func (n *Node) ServeHTTP(w http.ResponseWriter, r *http.Request) {
 				"transactions": txs, "block_reward": "0", "size": "1", "proposer": "Mp00", "validators": []interface{}{}, "evidence": map[string]interface{}{"evidence": []interface{}{}}, "missed": []string{}, "events": []interface{}{}, "code": "0"})
 		}
 		json.NewEncoder(w).Encode(map[string]interface{}{"blocks": out})
+	case strings.Contains(r.URL.Path, "/address/"):
+		out := map[string]interface{}{"balance": []interface{}{}, "delegated": []interface{}{}, "total": []interface{}{}, "transaction_count": "0", "bip_value": "0"}
+		if n.Msig != nil && strings.HasSuffix(strings.ToLower(r.URL.Path), strings.ToLower(Multisig)) {
+			ws := []string{}
+			for _, x := range n.Msig.Weights {
+				ws = append(ws, fmt.Sprint(x))
+			}
+			out["multisig"] = map[string]interface{}{"addresses": n.Msig.Addresses, "weights": ws, "threshold": fmt.Sprint(n.Msig.Threshold)}
+			out["transaction_count"] = fmt.Sprint(n.Msig.TxCount)
+		}
+		json.NewEncoder(w).Encode(out)
+	case strings.Contains(r.URL.Path, "/send_transaction/"):
+		tx := r.URL.Path[strings.LastIndex(r.URL.Path, "/")+1:]
+		code, lg := uint64(1), "no judge"
+		if n.OnSend != nil {
+			code, lg = n.OnSend(tx)
+		}
+		json.NewEncoder(w).Encode(map[string]interface{}{"code": fmt.Sprint(code), "log": lg, "hash": "Mt00"})
 	default:
 		http.Error(w, `{"error":{"code":"404","message":"not found"}}`, 404)
 	}
